@@ -499,10 +499,18 @@ class Rig:
         target_sco.register_operation(e.p_ops.SetMetricStateOperation('verif.setmetric', 'numeric.ch0.vmd1', self._handler))
         target_sco.register_operation(e.p_ops.SetComponentStateOperation('verif.setcomp', 'mds0', self._handler))
         self.ops = {}
+        self.clock_offset = 0.0        # virtual clock of provider/operations.py (invocation timeouts)
+        self.timeout_raises = False    # what the timeout handlers of the operations do
+        self.timeouts_fired = 0
+        self.dead = set()              # SCOs whose worker thread terminated
         for si, sco in enumerate(self.scos):
-            for h, op in sco._registered_operations.items():
+            for k, (h, op) in enumerate(sorted(sco._registered_operations.items())):
                 op._operation_handler = self._handler
                 self.ops[h] = (si, op)
+                if k % 2 == 0:
+                    # every second operation has an InvocationEffectiveTimeout and a timeout handler
+                    op._operation_entity.descriptor.InvocationEffectiveTimeout = 5.0
+                    op._timeout_handler = self._timeout_handler
         # workers: the real threads created and started by the real start_worker; every `get` of the worker loop waits
         # for a grant of the controlling thread, so ONE `run()` invocation lives through the whole script
         self.workers = []
@@ -547,7 +555,10 @@ class Rig:
         dev.generate_transaction_id = gen
         self.consumers = [Consumer(self, i) for i in range(n_consumers)]
         self.future_cls = CountingFuture.make()
-        self.patches = [mock.patch.object(e.c_ops, 'Future', self.future_cls),
+        rig_ = self
+        fake_time = types.SimpleNamespace(time=lambda: time.time() + rig_.clock_offset)
+        self.patches = [mock.patch.object(e.p_ops, 'time', fake_time),
+                        mock.patch.object(e.c_ops, 'Future', self.future_cls),
                         mock.patch.object(e.msg_types.OperationInvokedReportPart, 'update_from_node', self._stamping_update())]
         for p in self.patches:
             p.start()
@@ -605,6 +616,9 @@ class Rig:
         (an empty queue is an idle iteration); a worker that is inside a handler cannot start another iteration"""
         if si >= len(self.workers) or si in self.busy:
             return
+        if si in self.dead or not self.workers[si].is_alive():
+            self.dead.add(si)      # nothing will ever take a request from this queue again
+            return
         g = self.gates[si]
         self.busy.add(si)
         self._tick_ctx[si] = None
@@ -614,16 +628,23 @@ class Rig:
         try:
             with g.cv:
                 t_end = time.time() + 20
-                while not g.waiting:
-                    if not g.cv.wait(1) and time.time() > t_end:
-                        raise RuntimeError('worker thread is not waiting at its queue')
+                while not g.waiting and si not in self.dead:
+                    if not g.cv.wait(0.2):
+                        if not self.workers[si].is_alive():
+                            self.dead.add(si)
+                        elif time.time() > t_end:
+                            raise RuntimeError('worker thread is not waiting at its queue')
                 n = g.arrivals
                 g.granted = True
                 g.cv.notify_all()
                 t_end = time.time() + 60
                 while g.arrivals == n:
-                    if not g.cv.wait(1) and time.time() > t_end:
-                        raise RuntimeError('worker thread did not come back to its queue')
+                    if not g.cv.wait(0.2):
+                        if not self.workers[si].is_alive():
+                            self.dead.add(si)
+                            break
+                        if time.time() > t_end:
+                            raise RuntimeError('worker thread did not come back to its queue')
         finally:
             self.busy.discard(si)
         popped = self._tick_ctx[si]
@@ -634,6 +655,11 @@ class Rig:
 
     def _on_pop(self, si, item):
         self._tick_ctx[si] = item[0]
+
+    def _timeout_handler(self, operation):  # noqa: ARG002
+        self.timeouts_fired += 1
+        if self.timeout_raises:
+            raise RuntimeError('verif: timeout handler raises (100% {application} error)')
 
     # ---- handler of every operation
     def _handler(self, params):
@@ -878,7 +904,8 @@ class Rig:
     def register(self, h):
         if h in self.ops and h not in self.registered:
             si, old = self.ops[h]
-            new = type(old)(h, old.operation_target_handle, self._handler, delayed_processing=old.delayed_processing)
+            new = type(old)(h, old.operation_target_handle, self._handler, timeout_handler=old._timeout_handler,
+                            delayed_processing=old.delayed_processing)
             self.scos[si].register_operation(new)
             self.ops[h] = (si, new)
             self.registered.add(h)
@@ -901,6 +928,10 @@ class Rig:
                 self.deliver(ev[1], ev[2])
             elif k == 'drop':
                 self.drop(ev[1], ev[2])
+            elif k == 'advance':
+                self.clock_offset += ev[1]        # the invocation timeouts of the operations called so far expire
+            elif k == 'timeouts':
+                self.timeout_raises = bool(ev[1])
             elif k == 'unregister':
                 self.unregister(ev[1])
             elif k == 'register':
@@ -911,11 +942,11 @@ class Rig:
     def drain(self):
         for _ in range(20):
             for si in range(len(self.scos)):
-                while self.workers[si]._operations_queue.qsize():
+                while self.workers[si]._operations_queue.qsize() and si not in self.dead:
                     self.tick(si)
             for ci in range(len(self.consumers)):
                 self.deliver(ci, None)
-            if not any(w._operations_queue.qsize() for w in self.workers) and not any(c.outbox or c.lock_events for c in self.consumers):
+            if not any(w._operations_queue.qsize() for i, w in enumerate(self.workers) if i not in self.dead) and not any(c.outbox or c.lock_events for c in self.consumers):
                 break
 
     def pstate_line(self):
@@ -982,6 +1013,8 @@ def provider_oracle(ctx, rig, specs, script):
         ok = (r == 'Wait' and len(rw) in (2, 3) and rw[-2] == 'Start' and rw[-1] in FINALS and (len(rw) == 2 or rw[0] == 'Wait')) \
             or (r in FINALS and (rw == [] or rw == [r]))
         if not ok or len(finals) != 1:
+            if known and rig.dead and rig.ops[spec['op']][0] in rig.dead:
+                what += ' [the worker thread of this SCO has terminated]'
             sig = 'invocation:illegal-state-word'
             if known and r in FINALS and rw and rw[-1] in FINALS and rw[-1] != r:
                 sig = 'invocation:response-final-differs-from-report'
@@ -1082,6 +1115,12 @@ def gen_script(rng, rig_ops, cap, n_consumers, size, maxlen):
                 evs.append((rng.choice(['unregister', 'unregister', 'register']), rng.choice(sorted(rig_ops))))
         return evs
     events = mk_events(size, 0)
+    # invocation timeouts: the handlers of half of the scripts raise; the clock jumps somewhere in the script and idle
+    # worker cycles follow
+    events.insert(0, ('timeouts', rng.random() < 0.5))
+    for _ in range(rng.randint(0, 2)):
+        pos = rng.randint(1, len(events))
+        events[pos:pos] = [('advance', rng.choice([1, 6, 60])), ('tick', rng.randrange(3)), ('tick', rng.randrange(3))]
     return events, specs
 
 
@@ -1126,6 +1165,10 @@ def run_script(ctx, events, specs, modes, model_cases, check_parts=True, shrink=
             raise RuntimeError(f'harness error inside a handler: {rig.errors[:2]}')
         if rig.unhooked:
             ctx.count('id-not-from-SdcProvider.generate_transaction_id', rig.unhooked)
+        if rig.timeouts_fired:
+            ctx.count('timeout-handler-calls' + (':raising' if rig.timeout_raises else ''), rig.timeouts_fired)
+        if rig.dead:
+            ctx.count('worker-thread-terminated', len(rig.dead))
         provider_oracle(ctx, rig, specs, canon)
         consumer_oracle(ctx, rig, specs, canon, window_ok=check_parts)
         if shrink and len(ctx.failures) > n_fail and len(canon['events']) > 1:
@@ -1750,6 +1793,13 @@ def fixed_scripts(ops, cap):
                  call(s_act, 'Fin', consumer=0, before_response=[['tick', 0], ['deliver', 0, 1]],
                       at_lock=[['deliver', 0, None]]),
                  ['deliver', 1, None]]))
+    # invocation timeouts expire (virtual clock), the timeout handlers raise; requests before and after must be processed
+    cid[0] = 0
+    res.append(('timeout-handler-raises', {},
+                [['timeouts', True], call(s_str, 'Fin'), call(s_val, 'FinMod', consumer=1), call(s_act, 'raise'), ['tick', 0], ['tick', 0], ['tick', 2],
+                 ['advance', 60], ['tick', 0], ['tick', 1], ['tick', 2], ['tick', 0], call(s_str, 'FinMod'), call(s_ctx, 'Fin', consumer=1),
+                 call(s_val, 'Cnclld'), ['tick', 0], ['tick', 0], ['tick', 2], ['timeouts', False], ['advance', 60], ['tick', 0], ['tick', 2],
+                 call(s_act, 'Fin'), ['tick', 0], ['deliver', 0, None], ['deliver', 1, None]]))
     # operations unregistered and registered again at run time: a request for an unregistered operation is an unknown one
     cid[0] = 0
     res.append(('unregister-at-run-time', {s_val: True},
